@@ -54,7 +54,7 @@ pub fn oracle(tr: &Transition) -> Vec<Violation> {
         let src = tr.child.src.tree();
         match &tr.ev.op {
             Op::Backup(o) => {
-                let opts = if *o == 0 { hist::opts_p() } else { hist::opts_q() };
+                let opts = hist::opts_of(*o);
                 let _ = run::do_backup(&dir, &tr.srcs.dir_for(&src), &opts, run::NOHOOK, flavor);
             }
             Op::Delete(b) => {
